@@ -144,7 +144,7 @@ class Text(JupyterMixin):
         self.no_wrap = no_wrap
         self.end = end
         self.tab_size = tab_size
-        self._spans: List[Span] = spans or []
+        self._spans: List[Span] = list(spans) if spans else []
         self._length: int = len(sanitized_text)
 
     def __len__(self) -> int:
